@@ -2510,6 +2510,19 @@ def _raised_in_repo(e):
     return bool(fr) and os.path.realpath(fr[-1].filename).startswith(repo)
 
 
+def _raised_under_repo(e):
+    """The exception came out of the code under test: some frame is /repo code and nothing below the
+    last such frame is harness code (an exception the harness raises inside a callback, e.g. the
+    scripted generator running out of script, is not the code's)."""
+    import os
+    import traceback
+    repo = os.path.realpath(common.REPO) + os.sep
+    here = os.path.dirname(os.path.realpath(__file__)) + os.sep
+    fr = [os.path.realpath(f_.filename) for f_ in traceback.extract_tb(e.__traceback__)]
+    idx = [i for i, f_ in enumerate(fr) if f_.startswith(repo)]
+    return bool(idx) and not any(f_.startswith(here) for f_ in fr[idx[-1] + 1:])
+
+
 def run_unit(unit):
     """unit = dict(kind=..., family=..., seed=..., N=..., ...) -> (findings, stats)"""
     numpy.seterr(all='ignore')
@@ -2598,6 +2611,23 @@ def run_unit(unit):
             stats['machinery_trouble'] = stats.get('machinery_trouble', 0) + 1
             stats.setdefault('trouble', []).append('%s unit %r: %r at %s:%d in %s' % (
                 fam, {k_: unit[k_] for k_ in ('kind', 'seed', 'N') if k_ in unit}, e, fr.filename, fr.lineno, fr.name))
+            for k_ in ('_strict', '_pending', '_disp', '_az'):
+                stats.pop(k_, None)
+            stats['units'] = 1
+            stats['family:' + fam] = 1
+            return findings, stats
+        elif _raised_under_repo(e):
+            # the code under test raised on a legal public call of this unit (construction with legal
+            # settings, jump / birth from a legal point, a density query): a failing input -- kept with
+            # whatever the unit had found before (a worker process would lose the /repo frames otherwise)
+            import traceback
+            fr = [f_ for f_ in traceback.extract_tb(e.__traceback__)][-1]
+            findings.append(('%s:real-code-raised:%s' % (fam, type(e).__name__),
+                             '%s: the code under test raised %r at %s:%d in %s while unit %r was exercising it' % (
+                                 fam, e, fr.filename.split('/')[-1], fr.lineno, fr.name,
+                                 {k_: unit[k_] for k_ in ('kind', 'seed', 'N', 'nparams') if k_ in unit}),
+                             dict(kind='real-code-raised', family=fam, unit={k_: v_ for k_, v_ in unit.items()},
+                                  traceback=traceback.format_exception(type(e), e, e.__traceback__)[-6:])))
             for k_ in ('_strict', '_pending', '_disp', '_az'):
                 stats.pop(k_, None)
             stats['units'] = 1
